@@ -751,6 +751,45 @@ pub fn run_game(ctx: &Ctx, rep: &mut Report, c10: bool, c11: bool) {
         }
         mon.play(&start, pol, len, rng, rep);
     });
+    // directed: a very long action log (draw offers are logged and unbounded): counters and caches that
+    // assume "a game is short" wrap or fall behind; few full checks, every return value judged
+    if c10 && !miri && ctx.shard == 0 {
+        ctx.cases(rep, "long-log", 1, |_g, _rng, rep| {
+            let start = RPos::startpos();
+            let mut run = Run { g: Game::new(), m: ModelGame::new(&start), frozen: None, mon: &mon, trace: vec![], dead: false };
+            rep.count("ev_games");
+            let opening = [RMove::new(12, 28, 0), RMove::new(52, 36, 0), RMove::new(6, 21, 0)];
+            for m in opening.iter() {
+                let legal = run.m.cur.legal_moves();
+                mon.try_move(&mut run, *m, None, &legal, rep);
+            }
+            let n_offers = 66_000usize;
+            for i in 0..n_offers {
+                let c = (i % 2) as u8;
+                let r = run.g.offer_draw(lib_color(c));
+                rep.count("op_offer_draw");
+                if !r {
+                    rep.violation("C10/offer-refused-in-long-log", format!("offer {} of a long log was refused although the game is open", i));
+                    break;
+                }
+                run.m.log.push(MAct::Offer(c));
+                if i % 8192 == 8191 || i + 1 == n_offers || (i >= 65_530 && i <= 65_540) {
+                    run.trace.push(format!("...{} offers", i + 1));
+                    run.after_call("offer_draw", false, None, rep);
+                }
+            }
+            rep.max("max_actions_in_a_game", run.m.log.len() as u64);
+            // the game goes on normally afterwards
+            for m in [RMove::new(57, 42, 0), RMove::new(5, 26, 0), RMove::new(62, 45, 0)].iter() {
+                let legal = run.m.cur.legal_moves();
+                mon.try_move(&mut run, *m, None, &legal, rep);
+                if run.dead {
+                    break;
+                }
+            }
+            rep.count("ev_long_log_games");
+        });
+    }
     // directed: the fifty-move boundary with and without a castling-rights loss inside the window
     if c11 && !miri {
         ctx.cases(rep, "fifty-directed", 1, |_g, rng, rep| {
